@@ -185,6 +185,9 @@ type c20Req struct {
 	RecStatus int         `json:"rec_status,omitempty"`
 	RecSize   int         `json:"rec_size,omitempty"`
 	Empty     string      `json:"empty"`
+	// site / burst: the request is a POST with a JSON body (what {request_body} shows)
+	Post bool   `json:"post,omitempty"`
+	Body string `json:"body,omitempty"`
 }
 type c20In struct {
 	Kind string  `json:"kind"` // repl | log | site | burst
@@ -217,6 +220,12 @@ type c20In struct {
 	Via string `json:"via,omitempty"`
 
 	Burst []*c20In `json:"burst,omitempty"`
+	// burst with Gated: the requests marked Hold are sent first, one after the other, with their body withheld:
+	// each is answered by its handler and then sits inside the expansion of its first log line ({request_body}
+	// reads the body) - its list of log entries is computed, none of its lines written; then the others are
+	// served to their end, then the bodies are released
+	Gated bool `json:"gated,omitempty"`
+	Hold  bool `json:"hold,omitempty"`
 
 	abortOuts []c20Out // what the body calls reported after the client reset the connection (set by the runner)
 }
@@ -365,6 +374,11 @@ func c20Defaults(q *c20Req, remote, remotePort string) [][2]string {
 		{"{remote}", remote}, {"{uri}", orig.RequestURI()}, {"{uri_escaped}", url.QueryEscape(orig.RequestURI())},
 		{"{rewrite_uri}", cur.RequestURI()}, {"{rewrite_uri_escaped}", url.QueryEscape(cur.RequestURI())},
 		{"{file}", file}, {"{dir}", dir}, {"{mitm}", "unknown"}, {"{server_port}", sport},
+	}
+	if q.Post {
+		d = append(d, [2]string{"{request_body}", strings.NewReplacer("\r", "\\r", "\n", "\\n").Replace(q.Body)})
+	} else {
+		d = append(d, [2]string{"{request_body}", q.Empty})
 	}
 	if remotePort != "" {
 		d = append(d, [2]string{"{port}", remotePort})
@@ -830,6 +844,7 @@ type c20ProbeRes struct {
 	Outs  []c20Out `json:"calls,omitempty"`
 	SetBy string   `json:"set_by,omitempty"`
 	done  chan struct{}
+	probed chan struct{} // closed when the probe handler has returned
 }
 
 var c20Scripts sync.Map // id -> c20Script
@@ -868,9 +883,50 @@ func (p c20Probe) ServeHTTP(w http.ResponseWriter, r *http.Request) (int, error)
 		sc.res.mu.Lock()
 		sc.res.Outs = outs
 		sc.res.mu.Unlock()
+		if sc.res.probed != nil {
+			close(sc.res.probed)
+		}
 	}()
 	c20Exec(w, sc.ops, nil, &outs)
 	return sc.ret, nil
+}
+
+// c20HeldRaw sends the request with its body withheld until release is closed (sent is closed once the head is out)
+func c20HeldRaw(addr, method, target string, hdr map[string]string, body []byte, sent chan struct{}, release chan struct{}) rawResp {
+	conn, err := net.DialTimeout("tcp", addr, 2*time.Second)
+	if err != nil {
+		close(sent)
+		return rawResp{Err: err.Error()}
+	}
+	defer conn.Close()
+	conn.SetDeadline(time.Now().Add(30 * time.Second))
+	var sb bytes.Buffer
+	fmt.Fprintf(&sb, "%s %s HTTP/1.1\r\nHost: %s\r\n", method, target, addr)
+	keys := make([]string, 0, len(hdr))
+	for k := range hdr {
+		keys = append(keys, k)
+	}
+	sort.Strings(keys)
+	for _, k := range keys {
+		fmt.Fprintf(&sb, "%s: %s\r\n", k, hdr[k])
+	}
+	fmt.Fprintf(&sb, "Content-Length: %d\r\nConnection: close\r\n\r\n", len(body))
+	_, err = conn.Write(sb.Bytes())
+	close(sent)
+	if err != nil {
+		return rawResp{Err: err.Error()}
+	}
+	<-release
+	if _, err := conn.Write(body); err != nil {
+		return rawResp{Err: err.Error()}
+	}
+	resp, err := http.ReadResponse(bufio.NewReader(conn), &http.Request{Method: method})
+	if err != nil {
+		return rawResp{Err: err.Error()}
+	}
+	defer resp.Body.Close()
+	b, _ := io.ReadAll(resp.Body)
+	return rawResp{Status: resp.StatusCode, Header: resp.Header, Body: b}
 }
 
 // c20Outer sits in front of the log middleware: it tells the harness when the whole chain below it has
@@ -1114,6 +1170,9 @@ func c20Acc(outs []c20Out) uint64 {
 
 func c20SiteHeaders(in *c20In, id string) map[string]string {
 	h := map[string]string{"X-C20-Id": id}
+	if in.Req.Post {
+		h["Content-Type"] = "application/json"
+	}
 	if in.Wrap == "gzip" {
 		h["Accept-Encoding"] = "gzip"
 	}
@@ -1171,6 +1230,9 @@ func c20Target(in *c20In) string {
 func c20Method(in *c20In) string {
 	if in.Head {
 		return "HEAD"
+	}
+	if in.Req != nil && in.Req.Post {
+		return "POST"
 	}
 	return "GET"
 }
@@ -1344,15 +1406,51 @@ func c20RunBurst(in *c20In) Result {
 	}
 	var wg sync.WaitGroup
 	start := make(chan struct{})
+	release := make(chan struct{})
+	var free sync.WaitGroup
 	for i, b := range in.Burst {
+		if in.Gated && b.Hold {
+			continue
+		}
 		wg.Add(1)
+		free.Add(1)
 		go func(i int, b *c20In) {
 			defer wg.Done()
+			defer free.Done()
 			<-start
-			resps[i] = doRaw(s.addr, c20Method(b), c20Target(b), c20SiteHeaders(b, ids[i]), nil)
+			var body []byte
+			if b.Req.Post {
+				body = []byte(b.Req.Body)
+			}
+			resps[i] = doRaw(s.addr, c20Method(b), c20Target(b), c20SiteHeaders(b, ids[i]), body)
 		}(i, b)
 	}
+	if in.Gated {
+		// the held requests first, one after the other: each is answered by its handler and then waits for
+		// its body inside the expansion of its first log line
+		for i, b := range in.Burst {
+			if !b.Hold {
+				continue
+			}
+			prs[i].probed = make(chan struct{})
+			sent := make(chan struct{})
+			wg.Add(1)
+			go func(i int, b *c20In) {
+				defer wg.Done()
+				resps[i] = c20HeldRaw(s.addr, c20Method(b), c20Target(b), c20SiteHeaders(b, ids[i]), []byte(b.Req.Body), sent, release)
+			}(i, b)
+			<-sent
+			select {
+			case <-prs[i].probed:
+			case <-time.After(5 * time.Second):
+			}
+			time.Sleep(15 * time.Millisecond)
+		}
+	}
 	close(start)
+	if in.Gated {
+		go func() { free.Wait(); close(release) }()
+	}
 	done := make(chan struct{})
 	go func() { wg.Wait(); close(done) }()
 	select {
@@ -1380,6 +1478,9 @@ func c20RunBurst(in *c20In) Result {
 		}
 		if sg := c20SiteSig(b); sg != "site:clean" {
 			sig = sg
+		}
+		if in.Gated {
+			sig = "requests-in-flight-together:overlapping-scopes"
 		}
 		obs = append(obs, o)
 		terms = append(terms, c20SiteTerm(b, s.addr, o))
@@ -1919,6 +2020,77 @@ func c20GenSite(r *Rand) *c20In {
 	return in
 }
 
+// the tails that show the request body (reading it is what a held request waits in)
+var c20BodyTails = []string{"{request_body}|{method}|{>X-Evil}", "{method} {request_body} {c20u}|{upstream}", "{request_body}"}
+
+var c20GatedNo int
+
+// c20GenGated: a site with SEVERAL logs on one scope (1..7: the rule's entry slice has spare capacity for 3, 5, 6, 7)
+// plus logs on narrower scopes, in any order; requests for DIFFERENT narrower scopes in flight together: some held
+// inside the expansion of their first log line (their entry list computed, no line written yet) while the others are
+// served to their end.  Every request owes exactly one line to every log whose scope contains it, in THAT log's file.
+func c20GenGated(r *Rand) *c20In {
+	shared := r.Pick([]string{"/", "/", "/a"})
+	narrow := map[string][]string{"/": {"/a", "/c", "/x", "/a/b"}, "/a": {"/a/b", "/a/x", "/a/c"}}[shared]
+	paths := map[string][]string{"/a": {"/a", "/a/y", "/a/z/1"}, "/c": {"/c", "/c/", "/c/d"}, "/x": {"/x", "/x/y"}, "/a/b": {"/a/b", "/a/b/c", "/a/b/c/d"},
+		"/a/x": {"/a/x", "/a/x/1"}, "/a/c": {"/a/c", "/a/c/2"}}
+	nshared := []int{3, 3, 3, 5, 6, 7, 1, 2, 4}[r.Intn(9)]
+	nn := 2 + r.Intn(len(narrow)-1)
+	ns := append([]string{}, narrow...)
+	for i := len(ns) - 1; i > 0; i-- {
+		j := r.Intn(i + 1)
+		ns[i], ns[j] = ns[j], ns[i]
+	}
+	ns = ns[:nn]
+	var dirs []c20Dir
+	for i := 0; i < nshared; i++ {
+		dirs = append(dirs, c20Dir{Scope: shared})
+	}
+	for _, n := range ns {
+		d := c20Dir{Scope: n}
+		if r.Chance(60) {
+			// mostly after the shared ones (the shared rule is then the first one every request matches) ...
+			dirs = append(dirs, d)
+		} else {
+			k := r.Intn(len(dirs) + 1) // ... but also in between and in front
+			dirs = append(dirs[:k], append([]c20Dir{d}, dirs[k:]...)...)
+		}
+	}
+	tail := r.Pick(c20BodyTails)
+	hasErr := r.Chance(30)
+	b := &c20In{Kind: "burst", Gated: true}
+	nheld, nfree := 2+r.Intn(2), 2+r.Intn(4)
+	for j := 0; j < nheld+nfree; j++ {
+		c20GatedNo++
+		x := &c20In{Kind: "site", Dirs: dirs, HasErr: hasErr, Tail: tail, Req: c20GenSiteReq(r)}
+		sc := ns[j%len(ns)] // consecutive requests go to different narrower scopes
+		if j >= nheld && r.Chance(25) {
+			x.Path = r.Pick(c20Paths)
+		} else {
+			x.Path = r.Pick(paths[sc])
+		}
+		x.Req.Custom, x.Via = c20GenCustom(r), r.Pick([]string{"rr", "ctx"})
+		x.Hold = j < nheld
+		if x.Hold || r.Chance(40) {
+			x.Req.Post, x.Req.Body = true, fmt.Sprintf("{\"n\":%d,\"v\":\"%s\"}", c20GatedNo, r.Pick([]string{"plain", "{status}", "a}b{c", "{>X-Evil}"}))
+		}
+		// small well-behaved answers: nothing is flushed before the chain returns
+		for {
+			x.Ops, x.Ret = c20GenOps(r, "site")
+			tot := 0
+			for _, o := range x.Ops {
+				n, _ := o.offered()
+				tot += n
+			}
+			if c20WellBehaved(x.Ops, x.Ret) && !c20Panics(x.Ops) && tot <= 1024 {
+				break
+			}
+		}
+		b.Burst = append(b.Burst, x)
+	}
+	return b
+}
+
 // c20GenAbort: the client resets the connection while the handler is writing more than the socket
 // buffers hold; what the handler's Write calls report then is part of the observation
 func c20GenAbort(r *Rand) *c20In {
@@ -1950,6 +2122,10 @@ func c20GenAbort(r *Rand) *c20In {
 }
 
 func c20Gen(r *Rand, tier string) []interface{} {
+	nGated := 16
+	if tier == "thorough" {
+		nGated = 160
+	}
 	nRepl, nLog, nSite, nBurst, burstN, nAbort := 500, 500, 320, 5, 16, 10
 	if tier == "thorough" {
 		nRepl, nLog, nSite, nBurst, burstN, nAbort = 5000, 5000, 3200, 40, 32, 80
@@ -2044,6 +2220,10 @@ func c20Gen(r *Rand, tier string) []interface{} {
 		}
 		out = append(out, b)
 	}
+	// requests for different narrower scopes of one site in flight together, some held inside their log-line expansion
+	for i := 0; i < nGated; i++ {
+		out = append(out, c20GenGated(r))
+	}
 	out = append(out, &c20In{Kind: "end"})
 	return out
 }
@@ -2131,7 +2311,7 @@ func init() {
 	registerGen("Gen_C20.v", c20GenCoq)
 	register(&Property{
 		ID: "C20", Imports: "V.Lib V.C20_Model", Judge: "judge", Shard: 100,
-		Rule: "repl = the real Replace on a generated request/format (placeholder values handed to Coq come from the generator, not the implementation); log = log.Logger.ServeHTTP over a scripted handler and a scripted writer; site/burst = raw HTTP/1.1 requests (sequential / concurrent) to a running instance with log [+errors] directives and a probe directive, log files vs client-observed status and body length; non-trivial = the format has a brace, resp. the request is inside some log scope; distinct = distinct case term",
+		Rule: "repl = the real Replace on a generated request/format (placeholder values handed to Coq come from the generator, not the implementation); log = log.Logger.ServeHTTP over a scripted handler and a scripted writer; gated burst = requests for different narrower log scopes of a site with several logs on one scope, in flight together, some held inside the expansion of their first log line by a withheld {request_body}, judged per log file; site/burst = raw HTTP/1.1 requests (sequential / concurrent) to a running instance with log [+errors] directives and a probe directive, log files vs client-observed status and body length; non-trivial = the format has a brace, resp. the request is inside some log scope; distinct = distinct case term",
 		Gen: c20Gen,
 		Decode: func(raw json.RawMessage) (interface{}, error) {
 			in := &c20In{}
